@@ -3,6 +3,8 @@ package harness
 import (
 	"bytes"
 	"fmt"
+
+	"verifsim/ref"
 )
 
 func genC09(seed uint64, tier string, idx int) *Plan {
@@ -55,6 +57,29 @@ func genC09(seed uint64, tier string, idx int) *Plan {
 			}
 			a.Ops = append(a.Ops, Op{K: k}, Op{K: "quiet"})
 		}
+	}
+	if g.r.chance(30) {
+		// platform commands while delivered messages are held: a command is encoded through the session's header,
+		// never through a delivered message's
+		for k := 0; k < 1+g.r.intn(2); k++ {
+			ci := g.r.intn(len(p.Conns))
+			answers := false
+			for _, f := range p.Expect.Frames[ci] {
+				switch f.ID {
+				case 0x0001, 0x0104, 0x1003, 0x1205, 0x1206, 0x0805:
+					answers = true // would be taken for the command's answer (C12's subject), not replied to
+				}
+			}
+			if answers {
+				continue
+			}
+			ca := &Actor{Name: fmt.Sprintf("call%d", k), Conn: -1}
+			ca.Ops = append(ca.Ops, Op{K: "call", After: &Dep{Actor: p.Conns[ci].Label, N: 2 + g.r.intn(4)},
+				Call: &CallSpec{Key: ref.PhoneDigits(p.Conns[ci].Phone), Cmd: 0x8104, Body: []byte{0xC9, byte(k)}, Timeout: int64(300+g.r.intn(700)) * 1e6}})
+			p.Actors = append(p.Actors, ca)
+			p.Conns[ci].React = []Reaction{{Kind: "never"}}
+		}
+		p.Faults = append(p.Faults, "input.platform_commands_during_traffic")
 	}
 	p.Sched = g.sched()
 	if g.r.chance(35) {
